@@ -8,7 +8,7 @@ from props import c04
 
 ID = "C05"
 LEVEL = "proof"
-THEOREMS = ["C05_eq_defined", "C05_eq_idempotent", "C05_eq_lowest", "C05_wc_of_wc_is_eq", "C05_wc_points_at_rep", "C05_template_codes_agree", "C05_files_contract", "C05_loaded_files_contract", "C05_table_on_keys"]
+THEOREMS = ["C05_eq_defined", "C05_eq_idempotent", "C05_eq_lowest", "C05_wc_of_wc_is_eq", "C05_wc_points_at_rep", "C05_template_codes_agree", "C05_files_contract", "C05_loaded_files_contract", "C05_table_on_keys", "C05_struct_loaded_files_contract"]
 TRUSTED = c04.TRUSTED + ["clang ASan/UBSan build of spuriousSSM.c from the working tree (detect_leaks=0: the one-block oldS leak at exit is not a memory error)"]
 ASSUMPTIONS = ["the binary is run with imax=1 and a harness-chosen initial sequence (within the templates, not yet obeying eq/wc) so that the run is reproducible"]
 
